@@ -272,12 +272,18 @@ func (fr *Frame) computeAllowed(mods []string, entry *State) map[string]*frameAl
 			a.refs = append(a.refs, ev.one(ev.eval(e), "bigval"))
 			continue
 		case strings.HasPrefix(m, "elems("):
-			e, _ := parseSpecExpr(strings.TrimSuffix(strings.TrimPrefix(m, "elems("), ")"))
+			m0, lo, hi, ranged := splitElemsRange(m)
+			e, _ := parseSpecExpr(strings.TrimSuffix(strings.TrimPrefix(m0, "elems("), ")"))
 			v := ev.eval(e)
 			sl := v.T.Underlying().(*types.Slice)
 			for _, k := range fr.elemComps(sl.Elem()) {
 				a := get(k)
 				a.refs = append(a.refs, v.L[0])
+				if ranged && v.Mut {
+					lox, _ := parseSpecExpr(lo)
+					hix, _ := parseSpecExpr(hi)
+					fr.rangeMods = append(fr.rangeMods, rangeMod{comp: k, arr: v.L[0], off: v.L[1], lo: ev.one(ev.eval(lox), "range"), hi: ev.one(ev.eval(hix), "range"), text: m})
+				}
 			}
 			continue
 		case strings.HasPrefix(m, "map("):
@@ -400,6 +406,12 @@ func (fr *Frame) checkFrame(mods []string, entry, out *State, oc string) {
 		goal := fx.frameGoal(k, a, t1, t0, alloc0)
 		fx.obligeNamed(fr.key+"#frame", "frame", []string{"frame"}, oc, goal, fx.E.pos(fr.fn.Pos()), "frame: "+k+" unchanged outside the modifies clause")
 	}
+	for _, rm := range fr.rangeMods {
+		q := fx.freshName("q")
+		goal := fmt.Sprintf("(forall ((%s Int)) (=> (or (< %s (+ %s %s)) (>= %s (+ %s %s))) (= (select (select %s %s) %s) (select (select %s %s) %s))))", q, q, rm.off, rm.lo, q, rm.off, rm.hi, out.get(fx, rm.comp), rm.arr, q, entry.get(fx, rm.comp), rm.arr, q)
+		fx.obligeNamed(fr.key+"#frame-range", "frame", []string{"frame"}, oc, goal, fx.E.pos(fr.fn.Pos()), "frame: bytes outside "+rm.text+" unchanged")
+	}
+	fr.rangeMods = nil
 }
 
 // ---------------------------------------------------------------------------
@@ -418,6 +430,9 @@ func (r *FuncResult) scriptUpTo(o *Obligation, withAll bool) string {
 			}
 			continue
 		}
+		if !(it.Perm || it.Seg == 0 || it.Seg == o.seg) {
+			continue
+		}
 		sb.WriteString("(assert " + it.Assert + ")\n")
 	}
 	sb.WriteString("(assert " + o.Cond + ")\n")
@@ -426,7 +441,7 @@ func (r *FuncResult) scriptUpTo(o *Obligation, withAll bool) string {
 	return sb.String()
 }
 
-func (r *FuncResult) incrementalScript(sel func(*Obligation) bool, timeoutMs int) (string, []*Obligation) {
+func (r *FuncResult) incrementalScript(sel func(*Obligation) bool, timeoutMs int, seg int) (string, []*Obligation) {
 	var sb strings.Builder
 	sb.WriteString(fmt.Sprintf("(set-option :timeout %d)\n", timeoutMs))
 	for _, h := range r.script.header {
@@ -436,11 +451,13 @@ func (r *FuncResult) incrementalScript(sel func(*Obligation) bool, timeoutMs int
 	var order []*Obligation
 	for _, it := range r.script.items {
 		if it.Obl == nil {
-			sb.WriteString("(assert " + it.Assert + ")\n")
+			if it.Perm || it.Seg == 0 || it.Seg == seg {
+				sb.WriteString("(assert " + it.Assert + ")\n")
+			}
 			continue
 		}
 		o := it.Obl
-		if o.Status != "" || !sel(o) {
+		if o.Status != "" || !sel(o) || o.seg != seg {
 			continue
 		}
 		order = append(order, o)
@@ -484,21 +501,40 @@ func (E *Engine) solve(r *FuncResult, sel func(*Obligation) bool, sem chan struc
 		nchunks = 2
 	}
 	var wg1 sync.WaitGroup
-	for c := 0; c < nchunks; c++ {
+	// one incremental run per (segment, chunk): a segmented function ("at +N cut") shows each run only the
+	// assertions of its own segment
+	segs := map[int]bool{}
+	for _, o := range todo {
+		segs[o.seg] = true
+	}
+	type job struct{ seg, chunk int }
+	var jobs []job
+	for sg := range segs {
+		for c := 0; c < nchunks; c++ {
+			jobs = append(jobs, job{sg, c})
+		}
+	}
+	for _, jb := range jobs {
 		mine := map[*Obligation]bool{}
-		for i, o := range todo {
-			if i%nchunks == c {
+		k := 0
+		for _, o := range todo {
+			if o.seg != jb.seg {
+				continue
+			}
+			if k%nchunks == jb.chunk {
 				mine[o] = true
 			}
+			k++
 		}
 		if len(mine) == 0 {
 			continue
 		}
-		c := c
+		c := jb.seg*100 + jb.chunk
+		sg := jb.seg
 		wg1.Add(1)
 		go func() {
 			defer wg1.Done()
-			script, order := r.incrementalScript(func(o *Obligation) bool { return mine[o] }, 1500)
+			script, order := r.incrementalScript(func(o *Obligation) bool { return mine[o] }, 1500, sg)
 			f := filepath.Join(dir, fmt.Sprintf("all%d.smt2", c))
 			writeFile(f, script)
 			sem <- struct{}{}
